@@ -1,4 +1,5 @@
 pub mod c01;
+pub mod c02;
 pub mod c03;
 pub mod c04;
 pub mod c07;
@@ -8,12 +9,14 @@ pub mod c11;
 pub mod c12;
 pub mod c13;
 pub mod c14;
+pub mod c16;
 
 use crate::report::CaseOut;
 
 pub fn plan(prop: &str, tier: &str) -> Option<u64> {
     Some(match prop {
         "C01" => c01::plan(tier),
+        "C02" => c02::plan(tier),
         "C03" => c03::plan(tier),
         "C04" => c04::plan(tier),
         "C07" => c07::plan(tier),
@@ -23,6 +26,7 @@ pub fn plan(prop: &str, tier: &str) -> Option<u64> {
         "C12" => c12::plan(tier),
         "C13" => c13::plan(tier),
         "C14" => c14::plan(tier),
+        "C16" => c16::plan(tier),
         _ => return None,
     })
 }
@@ -30,6 +34,7 @@ pub fn plan(prop: &str, tier: &str) -> Option<u64> {
 pub fn run_case(prop: &str, tier: &str, seed: u64, idx: u64) -> CaseOut {
     match prop {
         "C01" => c01::run_case(tier, seed, idx),
+        "C02" => c02::run_case(tier, seed, idx),
         "C03" => c03::run_case(tier, seed, idx),
         "C04" => c04::run_case(tier, seed, idx),
         "C07" => c07::run_case(tier, seed, idx),
@@ -39,6 +44,7 @@ pub fn run_case(prop: &str, tier: &str, seed: u64, idx: u64) -> CaseOut {
         "C12" => c12::run_case(tier, seed, idx),
         "C13" => c13::run_case(tier, seed, idx),
         "C14" => c14::run_case(tier, seed, idx),
+        "C16" => c16::run_case(tier, seed, idx),
         _ => panic!("unknown property {prop}"),
     }
 }
